@@ -31,7 +31,7 @@ ASSUMPTIONS = [
     "that tick",
     "'only while a run is active' is refuted only when the tick began with System State Stopped",
     "Block/Scope Time increases over ticks that began in state Restarting (run being torn down; values are reset when "
-    "the new run starts) are counted, not judged: the statement names Paused and Holding",
+    "the new run starts) are not judged: the statement names Paused and Holding",
     "ticks in which a block/scope event was emitted are excluded from the Block/Scope Time rule (the tag switches to "
     "another scope's clock); these cannot occur while Paused/Holding unless a run ends/starts",
     "clock tags are read through Tag.get_value(), i.e. the value thresholds and the frontend see",
@@ -154,7 +154,7 @@ class Monitor:
         if r1 and r1 != r0:
             res.count("run_starts_judged")
             self.interesting = True
-            via_restart = self.start_origins == ["RestartEngineCommand"]
+            via_restart = bool(self.start_origins) and all(o == "RestartEngineCommand" for o in self.start_origins)
             if via_restart:
                 res.count("run_starts_via_restart")
             if pt1 != 0.0 or rt1 != 0.0:
